@@ -2,7 +2,7 @@
 (* Every call list up to MaxLen over the call alphabet of Batch.tla (C11). *)
 EXTENDS Naturals, Sequences, TLC, Json
 CONSTANT MaxLen
-GCalls == {[m |-> "add", k |-> 1], [m |-> "add", k |-> 2], [m |-> "addkw", k |-> 5], [m |-> "read", k |-> 0],
+GCalls == {[m |-> "add", k |-> 1], [m |-> "add", k |-> 2], [m |-> "addkw", k |-> 5], [m |-> "read", k |-> 0], [m |-> "note", k |-> 4],
            [m |-> "fail", k |-> 0], [m |-> "failafter", k |-> 3], [m |-> "unexposed", k |-> 0], [m |-> "private", k |-> 0],
            [m |-> "missing", k |-> 0]}
 VARIABLES h, done
